@@ -396,7 +396,7 @@ func cases(tier string) []Case {
 							delims = []string{"", "\nGO", "//", "\n-- end"}
 							if ind == "" && len(ch.vals) == 1 {
 								// delimiters holding a backslash or a double quote are written as they are.
-								delims = append(delims, "\\\\", "\\G", "//\"//")
+								delims = append(delims, "\\\\", "\\G", "//\"//", "\\n")
 							}
 						}
 						if tier == "thorough" && len(ch.vals) == 2 && ind != "" {
@@ -621,6 +621,9 @@ func classifyImport(c Case, problems []string) string {
 
 // classify recognises the listed findings by a predicate on the case (which slot holds what, which format).
 func classify(c Case, problems []string) string {
+	if strings.Contains(c.Delimiter, "\\n") || strings.Contains(c.Delimiter, "\\r") || strings.Contains(c.Delimiter, "\\t") {
+		return "delimiter-holding-a-literal-backslash-n-is-read-back-as-a-line-break"
+	}
 	if ownQuote(c) {
 		return "identifier-containing-own-quote-not-escaped"
 	}
